@@ -14,6 +14,11 @@
                  object and cookie disagree)
      w           marker this request then stored in its session (0 = none)
      x           1 iff the request expired its session
+     xh, xa      a further header the client sent and the address it names
+                 ("xff" X-Forwarded-For, "xfflist" the same with a list, "xrealip",
+                 "forwarded", "via", "clientip", "xclientip"; "none"): the client
+                 is its peer address and user agent whatever such a header
+                 says, so the monitor does not read them (classification only)
 
    Monitor state: fp[i] = fingerprint of the request the i-th id was first
    assigned to, st[i] = marker stored under it.
